@@ -10,7 +10,10 @@ importer opens (`importer.readFileWithExtensions`: `filepath.Join(dir, name+ext)
 Paths are byte lists as in C13; `filepath.Join/Clean` are C13's `join2/cleanStr`.
 
 Part B (state machine): `vm.importModule` with the per-VM `modules` cache and `loadedCode`
-map, the importer's code cache, module frames with their own globals array, `op.Import`,
+map (keyed by the IDENTITY of the compiled code object, as `map[*compiler.Code]*code` is), the
+importer (by-name code cache; every `parseAndCompile` yields a new code object; `Env.reuse`
+is the hook through which an importer could hand out an existing code object instead),
+module frames with the globals array of their code object, `op.Import`,
 `op.FromImport` (try `parent/name` as a module, else attribute of the parent; operand-stack
 residue of module bodies included), `try`, spawned clones (`vm.Clone` snapshots the maps).
 The model is the code AS IT IS: a failed body is not cached, a cyclic import re-enters the
@@ -101,6 +104,7 @@ inductive Val where
   | int (i : Int)
   | mod (o : Nat)     -- module object id (index into `St.objs`)
   | nil
+  | list (l : List Int)   -- a list of integers held by a module global (only that global refers to it)
   deriving DecidableEq, Repr
 
 inductive Stmt where
@@ -108,25 +112,39 @@ inductive Stmt where
   | fromImp (parent : Path) (items : List (Path × Path))  -- from parent import n1 as a1, ...
   | set (var : Path) (val : Int)                     -- top-level  var := val / var = val
   | setVia (alias var : Path) (val : Int)            -- alias.set_var(val): the module's own function stores into ITS global
+  | addVia (alias var : Path) (k : Int)              -- alias.add_var(k): the module's own function does var = var + k on ITS global (a counter)
+  | newList (var : Path)                             -- top-level  var := []
+  | pushVia (alias var : Path) (v : Int)             -- alias.push_var(v): the module's own function appends to ITS global list
   | tryImp (name : Path)                             -- try(func() { import name })
   | spawnImp (name : Path)                           -- spawn(func() { import name }).wait()
   | fail                                             -- error("boom")
-  deriving Repr
+  deriving Repr, DecidableEq
 
 /-- static configuration: import root, extension list, the module files (keyed by the
-    file path relative to the root, i.e. name ++ ext) and `vm.MaxFrameDepth` -/
+    file path relative to the root, i.e. name ++ ext), `vm.MaxFrameDepth`, and the importer's
+    choice of code object when it has to compile a module that is not in its by-name cache:
+    `reuse cache name = none` — the result of a fresh `parseAndCompile` (a NEW `*compiler.Code`;
+    what `LocalImporter`/`FSImporter` do, the default), `some c` — hand out the existing code
+    object `c` (e.g. a cache keyed by something other than the module path). -/
 structure Env where
   root : Path
   exts : List Path
   files : List (Path × List Stmt)
   limit : Nat
+  reuse : List (Path × Nat) → Path → Option Nat := fun _ _ => none
+
+/-- the importers of the unchanged code: every module path is compiled separately -/
+def LocalImporter (env : Env) : Prop := ∀ cache name, env.reuse cache name = none
 
 structure St where
   cache : List (Path × Nat) := []      -- vm.modules: name → module object
-  loaded : List (Path × Nat) := []     -- vm.loadedCode (root codes): name → globals array
+  loaded : List (Nat × Nat) := []      -- vm.loadedCode (root codes): code identity → globals array
   heap : List (List (Path × Val)) := [[]]  -- globals arrays; 0 is the main script's
   objs : List (Path × Nat) := []       -- every module object ever created: (name, globals array)
-  compiled : List Path := []           -- importer.codeCache
+  compiled : List (Path × Nat) := []   -- importer.codeCache: module name → identity of its compiled code object
+  ncode : Nat := 0                     -- code objects created so far by parseAndCompile (the next fresh identity)
+  owner : List (Nat × Nat) := []       -- ghost: every (code identity, globals array) pair any VM of this evaluation
+                                       -- (the script's or a clone's) ever created in loadCode
   opens : List Path := []              -- every file the importer tried to open, in order
   ticks : List Path := []              -- module body executions, in order
   failed : List Path := []             -- imports whose body did not complete
@@ -186,6 +204,7 @@ def declares : List Stmt → Path → Bool
   | .imp _ a :: t, k => a == k || declares t k
   | .fromImp _ items :: t, k => items.any (fun it => aliasOf items it.1 == k) || declares t k
   | .set v _ :: t, k => v == k || declares t k
+  | .newList v :: t, k => v == k || declares t k
   | _ :: t, k => declares t k
 
 abbrev ImpFn := Nat → St → Path → IRes × St
@@ -257,6 +276,27 @@ def execStmt (imp : ImpFn) (env : Env) (g depth : Nat) (st : St) (left : List Va
       | some (_, g') => ((.ok, left), st.store g' var (.int val))
       | none => ((.err, left), st)
     | _ => ((.err, left), st)
+  | .addVia alias var k =>
+    match (st.globals g).lookup alias with
+    | some (.mod o) =>
+      match st.objs[o]? with
+      | some (_, g') =>
+        match (st.globals g').lookup var with
+        | some (.int i) => ((.ok, left), st.store g' var (.int (i + k)))
+        | _ => ((.err, left), st)
+      | none => ((.err, left), st)
+    | _ => ((.err, left), st)
+  | .newList var => ((.ok, left), st.store g var (.list []))
+  | .pushVia alias var v =>
+    match (st.globals g).lookup alias with
+    | some (.mod o) =>
+      match st.objs[o]? with
+      | some (_, g') =>
+        match (st.globals g').lookup var with
+        | some (.list l) => ((.ok, left), st.store g' var (.list (l ++ [v])))
+        | _ => ((.err, left), st)
+      | none => ((.err, left), st)
+    | _ => ((.err, left), st)
   | .tryImp name =>
     if depth + 1 ≥ env.limit then ((.panic, left), st)   -- the function's own frame
     else
@@ -283,19 +323,31 @@ def execStmts (imp : ImpFn) (env : Env) (g depth : Nat) :
 
 /-- `importer.Import` on a code-cache miss reads the file (tries the extensions in order) -/
 def St.noteOpens (st : St) (env : Env) (name : Path) : St :=
-  if st.compiled.contains name then st else { st with opens := st.opens ++ attempts env name env.exts }
+  if (st.compiled.lookup name).isSome then st else { st with opens := st.opens ++ attempts env name env.exts }
 
-def St.noteCompiled (st : St) (name : Path) : St :=
-  if st.compiled.contains name then st else { st with compiled := name :: st.compiled }
-
-/-- the globals array `vm.loadCode` gives the module's root code (existing or about to be created) -/
-def St.gidOf (st : St) (name : Path) : Nat := (st.loaded.lookup name).getD st.heap.length
-
-/-- `vm.loadCode`: the globals array of a root code is created once per VM -/
-def St.loadCode (st : St) (name : Path) : St :=
-  match st.loaded.lookup name with
+/-- `importer.Import` for a module whose file exists: the by-name cache, else a code object
+    (fresh from `parseAndCompile` unless `env.reuse` says otherwise) that is then cached by name -/
+def St.noteCompiled (st : St) (env : Env) (name : Path) : St :=
+  match st.compiled.lookup name with
   | some _ => st
-  | none => { st with loaded := (name, st.heap.length) :: st.loaded, heap := st.heap ++ [[]] }
+  | none =>
+    match env.reuse st.compiled name with
+    | some c => { st with compiled := (name, c) :: st.compiled }
+    | none => { st with compiled := (name, st.ncode) :: st.compiled, ncode := st.ncode + 1 }
+
+/-- identity of the code object the importer returns for `name` (`module.Code()`) -/
+def St.codeOf (st : St) (name : Path) : Nat := (st.compiled.lookup name).getD 0
+
+/-- the globals array `vm.loadCode` gives a module's root code (existing or about to be created) -/
+def St.gidOf (st : St) (c : Nat) : Nat := (st.loaded.lookup c).getD st.heap.length
+
+/-- `vm.loadCode(cc)`: the globals array of a root code is created once per VM AND CODE OBJECT
+    (`vm.loadedCode` is keyed by the pointer) -/
+def St.loadCode (st : St) (c : Nat) : St :=
+  match st.loaded.lookup c with
+  | some _ => st
+  | none => { st with loaded := (c, st.heap.length) :: st.loaded, owner := (c, st.heap.length) :: st.owner,
+                      heap := st.heap ++ [[]] }
 
 def St.fail (st : St) (name : Path) : St := { st with failed := st.failed ++ [name] }
 
@@ -324,9 +376,10 @@ def importModule (env : Env) : Nat → List Path → ImpFn
       match bodyOf env name env.exts with
       | none => (⟨.err, 0, none⟩, st1)
       | some body =>
-        let st2 := st1.noteCompiled name
-        let gid := st2.gidOf name
-        let st3 := st2.loadCode name
+        let st2 := st1.noteCompiled env name
+        let cid := st2.codeOf name
+        let gid := st2.gidOf cid
+        let st3 := st2.loadCode cid
         if depth + 1 ≥ env.limit then
           (⟨.panic, 0, none⟩, st3.fail name)      -- frames[fp+1]: index out of range
         else
@@ -354,6 +407,34 @@ def oneObjectPerName (st : St) : Bool := decide (st.objs.map (·.1)).Nodup
 /-- module objects of different modules have different globals arrays, none the script's -/
 def globalsDisjoint (st : St) : Bool :=
   st.objs.all fun a => a.2 != 0 && st.objs.all fun b => a.1 == b.1 || a.2 != b.2
+
+/-- distinct module paths have distinct code objects (what the unchanged importers guarantee:
+    `importer_distinct_paths_distinct_code`; the hypothesis of `module_globals_disjoint`) -/
+def CodeInj (st : St) : Prop := ∀ p ∈ st.compiled, ∀ q ∈ st.compiled, p.2 = q.2 → p.1 = q.1
+
+instance (st : St) : Decidable (CodeInj st) := by unfold CodeInj; infer_instance
+
+/-- the same as a Bool (what the oracle prints) -/
+def codeInj (st : St) : Bool :=
+  st.compiled.all fun p => st.compiled.all fun q => p.2 != q.2 || p.1 == q.1
+
+/-- code identity of the module object whose globals array is `g` -/
+def St.codeOfGid (st : St) (g : Nat) : Option Nat := (st.owner.find? (fun p => p.2 == g)).map (·.1)
+
+/-- the importer alone: an arbitrary sequence of `Import(name)` calls on one importer -/
+def importSeq (env : Env) (names : List Path) (st : St) : St :=
+  names.foldl (fun st n =>
+    match bodyOf env n env.exts with
+    | none => st.noteOpens env n
+    | some _ => (st.noteOpens env n).noteCompiled env n) st
+
+/-- NOT the unchanged code — an importer with a compile cache keyed by the source TEXT: a module
+    whose text equals that of a module compiled before gets that module's code object (used by
+    `distinct_code_needed` and by the oracle's `runshared` diagnosis) -/
+def shareByText (files : List (Path × List Stmt)) (exts : List Path) : List (Path × Nat) → Path → Option Nat :=
+  fun cache name =>
+    let src := fun (n : Path) => exts.findSome? fun e => files.lookup (n ++ e)
+    cache.findSome? fun p => if src p.1 = src name then some p.2 else none
 
 /-- every opened file is `root/<name><ext>` for a well-formed name -/
 def underRoot (root : Path) (p : Path) : Bool :=
